@@ -234,10 +234,16 @@ def main():
     # convergence with depth for uncoupled sites (exactly solvable); the two
     # sites have DIFFERENT baths and every optical and inter-site coherence is
     # compared with exp(-i w t - g(t))
-    nconv = 6 if ck.thorough else 2
+    nconv = 6 if ck.thorough else 3
     for s in range(nconv):
         N = 2
         reorg = rng.uniform(10, 35, size=N)
+        # a bath of zero strength before / after a coupled one (that site
+        # then evolves freely: g = 0)
+        if s % 3 == 1:
+            reorg[0] = 0.0
+        elif s % 3 == 2:
+            reorg[1] = 0.0
         cort = rng.uniform(30, 55, size=N)
         T = float(rng.uniform(200, 320))
         Nt = 150
